@@ -973,10 +973,12 @@ class Exec:
         nat = self.ctx.natives.get(q)
         if nat is not None:
             try:
-                yield from nat(self, st, args, kwargs, node)
+                r = nat(self, st, args, kwargs, node)
+                if r is not None:
+                    yield from r
+                    return
             except PathDead:
                 return
-            return
         contract = self.ctx.contracts.get(q)
         if contract is not None and q != self.ctx.func and q not in self.ctx.force_inline:
             self.ctx.edges.add((self.ctx.func, q, "contract"))
